@@ -22,7 +22,16 @@
 //	  through net/http's own writer and parser; HTTP over a loopback socket;
 //	  HTTP on a recorder with the end-of-body indication held back (streams)}
 //
-// through the real channels and servers (grammar.go, run.go). Oracle (oracle.go):
+// through the real channels and servers (grammar.go, run.go), and, as a dimension of its own (part reuse, reuse.go):
+//
+//	the lifetime of the metadata objects handed to the library: sequences of 2..3 calls (every sequence of RPC
+//	kinds) on one channel / server in which the handler (response headers, trailers, or one object for both) or the
+//	caller (outgoing context MD, the map its per-RPC credentials return, or both) hands THE SAME long-lived object
+//	to the library in every call, next to per-call objects, in every order (scripts over {L, P}) and through every
+//	API -- against a fresh copy per call as the control. Per call the oracle below, plus: nothing of an earlier call
+//	under the per-call key, and every object handed over still has the content the application gave it.
+//
+// Oracle (oracle.go):
 // every pair the caller attached (through the context or through credentials)
 // is in the handler's incoming metadata, every
 // pair the handler set is in Header() / Trailer() and in every option target:
@@ -177,6 +186,12 @@ func runUnit(w *worker, u unit, transports []string, sampleAt int) unitResult {
 }
 
 func replay(path string) {
+	var probe struct {
+		Part string `json:"part"`
+	}
+	if err := common.LoadReplay(path, &probe); err == nil && probe.Part == partReuse {
+		replaySeq(path)
+	}
 	var c Case
 	if err := common.LoadReplay(path, &c); err != nil {
 		inconclusive("cannot load replay %s: %v", path, err)
@@ -243,7 +258,13 @@ func main() {
 	if err := selfTestOracle(); err != nil {
 		inconclusive("self-test: %v", err)
 	}
+	if err := selfTestReuse(); err != nil {
+		inconclusive("self-test: %v", err)
+	}
 	us := units(maxLen, multiAll, tripleSet, thorough)
+	if os.Getenv("C03E2_ONLY") == partReuse {
+		us = nil // development aid: only the reuse part (the evidence then says so: evaluations_per_part)
+	}
 	// the reference transport: thorough = every unit; quick = the one- and two-value one-key maps in the base modes, the five-key maps
 	refFor := func(u unit) bool {
 		if thorough {
@@ -301,6 +322,34 @@ func main() {
 	close(jobs)
 	wg.Wait()
 
+	// ---- part reuse: sequences of calls made with the application's long-lived metadata objects (reuse.go); always with
+	// the reference transport next to the library's
+	sus := seqUnits(thorough)
+	kseqs := kindSeqs(thorough)
+	seqResults := make([]seqUnitResult, len(sus))
+	seqSampleEvery := len(sus) / 4
+	seqJobs := make(chan int)
+	for _, w := range workers[:nw] {
+		w := w
+		wg.Add(1)
+		go func() {
+			defer wg.Done()
+			ts := append(append([]string(nil), libTransports...), refTransport)
+			for i := range seqJobs {
+				sampleAt := -1
+				if i%seqSampleEvery == seqSampleEvery/2 {
+					sampleAt = (i * 7) % 23
+				}
+				seqResults[i] = runSeqUnit(w, sus[i], kseqs, ts, sampleAt)
+			}
+		}()
+	}
+	for i := range sus {
+		seqJobs <- i
+	}
+	close(seqJobs)
+	wg.Wait()
+
 	// ---- collect, in unit order (deterministic whatever the worker interleaving was)
 	evals, refEvals := 0, 0
 	distinct := map[uint64]struct{}{}
@@ -328,6 +377,25 @@ func main() {
 		viol = append(viol, r.viol...)
 	}
 	_ = refEvals
+	seqCount, seqCalls := 0, 0
+	seqDistinct := map[uint64]struct{}{}
+	var seqViol []seqViolating
+	for _, r := range seqResults {
+		seqCount += r.sequences
+		seqCalls += r.calls
+		evals += r.calls
+		perPart[partReuse] += r.calls
+		for _, h := range r.nontrivial {
+			distinct[h] = struct{}{}
+			seqDistinct[h] = struct{}{}
+		}
+		if r.sample != nil {
+			samples = append(samples, r.sample)
+		}
+		refMismatch = append(refMismatch, r.refMismatch...)
+		unreached = append(unreached, r.unreached...)
+		seqViol = append(seqViol, r.viol...)
+	}
 	if len(refMismatch) > 0 {
 		for i, s := range refMismatch {
 			if i == 10 {
@@ -419,6 +487,19 @@ func main() {
 		}
 		rep.Violation(fp, what, g.rep)
 	}
+	seqGroups, seqUnstable := groupSeq(seqViol, kseqs, thorough, func(s SeqCase, els []string) bool {
+		for i := 0; i < 2; i++ {
+			got, _ := mz.w.runSeq(s).elements()
+			if strings.Join(got, ",") != strings.Join(els, ",") {
+				return false
+			}
+		}
+		return true
+	})
+	unstable += seqUnstable
+	for _, g := range seqGroups {
+		rep.Violation(g.fp, fmt.Sprintf("%s [simplest of %d violating call sequences of the reuse part with this damage]", g.what, g.count), g.rep)
+	}
 	spent := map[string]time.Duration{}
 	for _, w := range workers {
 		w.close()
@@ -433,6 +514,7 @@ func main() {
 		"keys are valid gRPC keys outside the transports' reserved namespaces (grpc-, x-grpc-, HTTP framing headers); ASCII values have no leading/trailing blank (the gRPC spec lets transports strip those)",
 		"per application key the observed value list must equal the list that was set (all values, order, bytes); keys the application did not set are ignored; grpc-go over bufconn satisfies this oracle on the same cases (checked in this run)",
 		"per-RPC credentials (grpc.PerRPCCredentials call option; a static map, RequireTransportSecurity false, one option per call) count as metadata the caller attaches: under a key the credentials also produce the handler must see the caller's values in the caller's order with the credentials' value inserted once at any position (grpc-go puts it first, grpchan last; the statement fixes neither), under a key only the credentials produce exactly their value; keys compared in lower case. The credentials dimension is crossed with kind x outcome x transport x attach mode (part creds, narrow expansion) and swept around one-key bases for nresp x Header() position x option count with header and trailer maps present (part creds-sweep); it is not crossed with the value-list grammar of the one-key part (values rotate through the alphabets instead)",
+		"part reuse (long-lived metadata objects): the sequences are sequential (call n+1 starts when call n has ended) on one channel / server per transport; the long-lived object holds valid-UTF-8 values and the per-call objects one key with one value naming the call (the value grammar is the other parts' subject), two grpc.Header and two grpc.Trailer options per call, one response message for the server-streaming kinds; per call the oracle is the per-call oracle above (what the application put into the objects it handed over in this call, nothing of an earlier call under the per-call key) plus: every object handed to the library has, after the call, the content it had before it. The reuse dimension is crossed with kind sequence x position x hand-over mode x script x long-lived map x per-call key x outcome x transport, not with the value-list grammar, the option count, Header() position or the credentials key-set grammar. Only the application's side keeps objects: what the client does with the metadata it receives (e.g. writing into a received header map) is not varied",
 		"the hang guard (30 s without progress) uses the wall clock; nothing else does",
 	}
 	os.Exit(rep.Finish("exploration", map[string]interface{}{
@@ -441,18 +523,25 @@ func main() {
 		"units":                           len(us),
 		"distinct_nontrivial":             len(distinct),
 		"violating_cases":                 len(viol),
+		"reuse_sequences":                 seqCount,
+		"reuse_calls":                     seqCalls,
+		"reuse_units":                     len(sus),
+		"reuse_distinct_shared_object":    len(seqDistinct),
+		"reuse_violating_sequences":       len(seqViol),
 		"minimiser_runs":                  mz.runs,
 		"not_reproducible":                unstable,
 		"flaky_minimiser_verdicts":        mz.flaky,
 		"gate_timed_out":                  gateTimedOut.Load(),
-		"rule":                            "a case (transport, kind, outcome, nresp, Header() position, option count, three maps with their attach modes, credentials map with its key spelling) is non-trivial when the real handler was reached and at least one application pair was in play (caller attached request metadata or passed per-RPC credentials, or a SetHeader/SendHeader/SetTrailer call of the handler returned nil), i.e. the metadata copy / merge / encode / fan-out path ran; distinct by all case parameters (FNV-64 of the case key); reference-transport (grpc-go) runs are counted in evaluations but not here. credentials_cases_reached: library cases with a grpc.PerRPCCredentials option whose handler ran; credentials_distinct_shared_key: the distinct ones among them in which the caller's metadata and the credentials have at least one key in common (the merge had to keep both sides' values under one key)",
+		"rule":                            "a case (transport, kind, outcome, nresp, Header() position, option count, three maps with their attach modes, credentials map with its key spelling) is non-trivial when the real handler was reached and at least one application pair was in play (caller attached request metadata or passed per-RPC credentials, or a SetHeader/SendHeader/SetTrailer call of the handler returned nil), i.e. the metadata copy / merge / encode / fan-out path ran; distinct by all case parameters (FNV-64 of the case key); reference-transport (grpc-go) runs are counted in evaluations but not here. A call sequence of part reuse is non-trivial (and counted, keyed by all its parameters; reuse_distinct_shared_object) when the very same long-lived object was handed to the library in every call, every call reached the real handler and the library accepted the objects (no SetHeader/SetTrailer error) in at least two calls, i.e. the copy-or-keep decision of the metadata path ran at least twice on one object; the control sequences (fresh copy per call) and the reference-transport runs count in evaluations (one per call) only. credentials_cases_reached: library cases with a grpc.PerRPCCredentials option whose handler ran; credentials_distinct_shared_key: the distinct ones among them in which the caller's metadata and the credentials have at least one key in common (the merge had to keep both sides' values under one key)",
 		"credentials_cases_reached":       credsEvals,
 		"credentials_distinct_shared_key": len(credsShared),
 		"samples":                         samples,
 		"exhaustive":                      true,
 		"grammar": fmt.Sprintf("one-key maps: 5 keys x value lists of length 1..%d over 5 values x all attach modes (request: NewOutgoingContext, AppendToOutgoingContext per pair, first pair New + rest appended) x 3 positions; two-key maps: 10 key pairs x 25 value pairs and 5 five-key maps x attach modes (all=%v) x 3 positions; %d^3 three-position triples; each x 4 kinds x ok/fail x nresp x Header() position x 0..2 options x 5 transports (inproc, http-rec, http-wire, http-net; http-gate for the stream kinds). "+
-			"Per-RPC credentials (part creds): every pair (caller key set S, credentials key set T non-empty) of subsets of the key alphabet %v (disjoint, overlapping, nested, identical; S empty = credentials alone) x 1..%d caller values per key x %d value schemes (rotations of the value alphabets with the credentials' value different from all the caller's for the key, and one where it repeats the caller's first value) x every request attach mode x credentials' keys in lower / upper case x 4 kinds x ok/fail x 5 transports; (part creds-sweep): none or one caller key (two values) x one credentials key over the same alphabet x every request attach mode, with a header and a trailer map set, x the full expansion (nresp x Header() position x 0..2 options). No credentials = all other parts",
-			maxLen, multiAll, tripleSet, credsKeyAlpha(thorough), map[bool]int{false: 2, true: 3}[thorough], map[bool]int{false: 3, true: 6}[thorough]),
+			"Per-RPC credentials (part creds): every pair (caller key set S, credentials key set T non-empty) of subsets of the key alphabet %v (disjoint, overlapping, nested, identical; S empty = credentials alone) x 1..%d caller values per key x %d value schemes (rotations of the value alphabets with the credentials' value different from all the caller's for the key, and one where it repeats the caller's first value) x every request attach mode x credentials' keys in lower / upper case x 4 kinds x ok/fail x 5 transports; (part creds-sweep): none or one caller key (two values) x one credentials key over the same alphabet x every request attach mode, with a header and a trailer map set, x the full expansion (nresp x Header() position x 0..2 options). No credentials = all other parts. "+
+			"Long-lived objects (part reuse): sequences of calls on one channel / server: every sequence of 2 RPC kinds and %s x position {header, trailer, header+trailer (one object handed to both), request} x script over {L = the long-lived object, P = a per-call object} of length 1..%d with at least one L (request: L first and once) x hand-over mode {header: grpc.SetHeader(ctx) or the stream's SetHeader, the last call optionally SendHeader; trailer: grpc.SetTrailer(ctx), the stream's SetTrailer before / after the response messages / first before and the rest after; request: NewOutgoingContext(L) + AppendToOutgoingContext per per-call pair, L as the map the PerRPCCredentials return, or both} x %d long-lived maps x per-call key {L's first key, a key L does not have} x handler ok/fail x {the same object in every call, a fresh copy per call (control)} x 5 transports + grpc-go",
+			maxLen, multiAll, tripleSet, credsKeyAlpha(thorough), map[bool]int{false: 2, true: 3}[thorough], map[bool]int{false: 3, true: 6}[thorough],
+			map[bool]string{false: "the 4 sequences of 3 calls of one kind", true: "every sequence of 3 RPC kinds (those of different kinds for the first two long-lived maps only, the four of one kind for all)"}[thorough], map[bool]int{false: 2, true: 3}[thorough], len(longMaps(thorough))),
 		"reference_validated_on_grpc_go": true,
 	}, assumptions))
 }
